@@ -139,8 +139,9 @@ def ev_chol(spec):
     pp = pypose()
     d = dt(spec["dtype"])
     As, bs = spec["As"], spec["bs"]
-    A = torch.tensor(As, dtype=d)
-    b = torch.tensor(bs, dtype=d).unsqueeze(-1)
+    sa, sb = 2.0 ** spec.get("aexp", 0), 2.0 ** spec.get("bexp", 0)   # exact power-of-two scalings
+    A = torch.tensor(As, dtype=d) * sa
+    b = torch.tensor(bs, dtype=d).unsqueeze(-1) * sb
     if spec.get("unbatched"):
         A, b = A[0], b[0]
     ev = {"act": "chol", "upper": spec["upper"], "As": As, "bs": bs, "xs": spec.get("xs", []), "ulps": []}
@@ -151,7 +152,7 @@ def ev_chol(spec):
         ev["msg"] = repr(ex)[:120]
         return ev
     ev["out"] = "value"
-    x = x.reshape(len(As), -1).tolist()
+    x = (x * (sa / sb)).reshape(len(As), -1).tolist()
     if spec.get("xs"):
         ev["ulps"] = [ulps(x[k], [Fr(*f) for f in spec["xs"][k]], EPS[spec["dtype"]]) for k in range(len(As))]
     else:
@@ -178,6 +179,9 @@ def cholesky_part(ctx, sym, traces):
                 ev = ev_chol(spec)
                 traces.append({"cfg": spec, "ev": [ev], "class": "pd"})
                 ctx.evaluations += len(rows)
+                if k == 0:      # the same systems scaled by powers of two (solution scales exactly)
+                    sc = dict(spec, aexp=rng.choice([-20, -6, 9, 24]), bexp=rng.choice([-25, -3, 11, 30]))
+                    traces.append({"cfg": sc, "ev": [ev_chol(sc)], "class": "pd"})
         # unbatched 2-D inputs
         for r in rng.sample(pd, 12):
             s = r["sols"][0]
@@ -225,7 +229,7 @@ def ls_batch(solver, A, b):
     return "value", x.reshape(A.shape[0], -1).tolist(), ""
 
 
-def ev_ls_group(rows, dtype, lstsq_driver=None):
+def ev_ls_group(rows, dtype, lstsq_driver=None, aexp=0, bexp=0):
     """All matrices of one shape through one batched PINV call and one batched LSTSQ call per rhs index;
     one event per matrix."""
     import torch
@@ -234,14 +238,17 @@ def ev_ls_group(rows, dtype, lstsq_driver=None):
     eps = EPS[dtype]
     nb = len(rows[0]["sols"])
     sols = [sorted(r["sols"], key=lambda s: s["b"]) for r in rows]
-    A = torch.tensor([r["A"] for r in rows], dtype=d)
+    sa, sb = 2.0 ** aexp, 2.0 ** bexp
+    A = torch.tensor([r["A"] for r in rows], dtype=d) * sa
     evs = [{"act": "ls", "A": r["A"], "bs": [s["b"] for s in so], "xs": [s["x"] for s in so],
             "pinv": {"out": "value", "ulps": []}, "lstsq": {"out": "value", "ulps": [], "nres": []}}
            for r, so in zip(rows, sols)]
     for k in range(nb):
-        b = torch.tensor([so[k]["b"] for so in sols], dtype=d).unsqueeze(-1)
+        b = torch.tensor([so[k]["b"] for so in sols], dtype=d).unsqueeze(-1) * sb
         for name, solver in (("pinv", pp.optim.solver.PINV()), ("lstsq", pp.optim.solver.LSTSQ(driver=lstsq_driver))):
             out, xs, msg = ls_batch(solver, A, b)
+            if xs is not None:
+                xs = [[v * (sa / sb) for v in row] for row in xs]
             for i, e in enumerate(evs):
                 if out == "raise":
                     e[name]["out"] = "raise"
@@ -284,6 +291,15 @@ def ls_part(ctx, ls, traces):
             for i in keep:
                 traces.append({"cfg": {"fam": "ls", "dtype": dtype, "rows": [rows[i]]}, "ev": [evs[i]],
                                "class": "rank%d_%dx%d" % (rows[i]["rank"], m, n)})
+    # the same systems with A and b scaled by powers of two (pinv / lstsq cut-offs must be relative)
+    for (aexp, bexp) in ((-24, 6), (18, -9)):
+        rows = rng.sample(ls, 240 if q else 1500)
+        for (m, n) in shapes:
+            grp = [r for r in rows if (len(r["A"]), len(r["A"][0])) == (m, n)]
+            if grp:
+                for r, e in zip(grp, ev_ls_group(grp, "float64", None, aexp, bexp)):
+                    traces.append({"cfg": {"fam": "ls", "dtype": "float64", "rows": [r], "aexp": aexp, "bexp": bexp}, "ev": [e],
+                                   "class": "rank%d_%dx%d_scaled" % (r["rank"], m, n)})
     if not q:   # the other LAPACK drivers documented for rank-deficient input
         for drv in ("gelsd", "gelss"):
             rows = rng.sample(ls, 400)
@@ -316,11 +332,14 @@ def ev_cg(spec):
     A, b, x0, M = spec["A"], spec["b"], spec["x0"], spec["M"]
     n = len(b)
     blk = n if (spec["layout"] == "bsr" and spec.get("bigblock")) else 1
-    At = to_layout(torch.tensor(A, dtype=d), spec["layout"], blk)
-    bt = torch.tensor(b, dtype=d)
+    # A 2^aexp, b 2^bexp, x0 2^(bexp-aexp), M 2^-aexp: exact CG iterates scale exactly, its iteration count and
+    # the relative residual do not change, so the event still carries the unscaled integers
+    sa, sb = 2.0 ** spec.get("aexp", 0), 2.0 ** spec.get("bexp", 0)
+    At = to_layout(torch.tensor(A, dtype=d) * sa, spec["layout"], blk)
+    bt = torch.tensor(b, dtype=d) * sb
     bt = bt if spec.get("b1d") else bt.unsqueeze(-1)
-    xt = None if not x0 else torch.tensor(x0, dtype=d).unsqueeze(-1)
-    Mt = None if not M else to_layout(torch.tensor(M, dtype=d), spec["mlayout"], 1)
+    xt = None if not x0 else torch.tensor(x0, dtype=d).unsqueeze(-1) * (sb / sa)
+    Mt = None if not M else to_layout(torch.tensor(M, dtype=d) / sa, spec["mlayout"], 1)
     probe = spec["mode"] == "probe"
     tol = CG_PROBE_TOL if probe else spec.get("tol", CG_DEFAULT_TOL)
     kw = {"maxiter": spec["iters"], "tol": tol} if probe else ({} if "tol" not in spec else {"tol": tol})
@@ -335,7 +354,8 @@ def ev_cg(spec):
         ev["msg"] = repr(ex)[:160]
         return ev
     ev["out"] = "value"
-    xs = x.to_dense().reshape(-1).tolist() if x.layout != torch.strided else x.reshape(-1).tolist()
+    x = x.to_dense() if x.layout != torch.strided else x
+    xs = (x * (sa / sb)).reshape(-1).tolist()
     ev["zero"] = all(v == 0 for v in xs) and len(xs) == n
     if any(b):
         ev["rel_e9"] = rel_residual_e9(A, b, xs)
@@ -362,6 +382,11 @@ def cg_part(ctx, cg, traces):
             ev = ev_cg(spec)
             ctx.evaluations += 1
             traces.append({"cfg": spec, "ev": [ev], "class": "%s_%s" % (layout, mode)})
+        if i % 2 == 0:   # scaled system: the stopping rule must be relative to |b|
+            spec = {"fam": "cg", "dtype": "float64", "layout": "dense", "mlayout": "dense", "mode": "default",
+                    "A": r["A"], "b": r["b"], "x0": r["x0"], "M": r["M"], "iters": r["iters"],
+                    "aexp": rng.choice([-8, 0, 0, 7]), "bexp": rng.choice([-30, -22, 21, 33])}
+            traces.append({"cfg": spec, "ev": [ev_cg(spec)], "class": "dense_default_scaled"})
         if i % 4 == 0:   # float32 with a tolerance float32 can reach
             spec = {"fam": "cg", "dtype": "float32", "layout": "dense", "mlayout": "dense", "mode": "default", "tol": 1e-3,
                     "A": r["A"], "b": r["b"], "x0": r["x0"], "M": r["M"], "iters": r["iters"]}
@@ -438,14 +463,16 @@ def ev_big(spec):
             Mt = to_layout(torch.diag(torch.tensor([2.0 ** -int(math.floor(math.log2(A[i][i]))) for i in range(n)], dtype=d)),
                            spec["layout"], spec.get("blk", 1))
         tol = spec.get("tol", CG_DEFAULT_TOL)
+        sb = 2.0 ** spec.get("bexp", 0)
         ev.update({"bzero": kind == "b0", "tol_e9": int(tol * 1e9)})
         try:
             x = pp.optim.solver.CG(**({"tol": tol} if "tol" in spec else {}))(
-                At, torch.tensor(b, dtype=d).unsqueeze(-1), None if x0 is None else torch.tensor(x0, dtype=d).unsqueeze(-1), Mt)
+                At, torch.tensor(b, dtype=d).unsqueeze(-1) * sb,
+                None if x0 is None else torch.tensor(x0, dtype=d).unsqueeze(-1) * sb, Mt)
         except Exception as ex:
             ev.update({"out": "raise", "msg": repr(ex)[:160]})
             return ev
-        xs = x.reshape(-1).tolist()
+        xs = (x / sb).reshape(-1).tolist()
         ev.update({"out": "value", "zero": all(v == 0 for v in xs) and len(xs) == n,
                    "rel_e9": rel_residual_e9(A, b, xs) if any(b) else 0})
         return ev
@@ -566,7 +593,7 @@ def big_part(ctx, traces):
             blk = rng.choice([b for b in (1, 2, 4) if n % b == 0])
             specs.append({"fam": "big", "solver": "cg", "kind": rng.choice(["plain", "plain", "b0"]), "n": n, "dtype": "float64",
                           "emax": rng.choice([0, 2, 4]), "layout": layout, "blk": blk, "x0": rng.random() < 0.5,
-                          "prec": rng.random() < 0.5})
+                          "prec": rng.random() < 0.5, "bexp": rng.choice([-24, 0, 0, 19])})
         specs.append({"fam": "big", "solver": "cg", "kind": "plain", "n": n, "dtype": "float32", "emax": 0, "layout": "dense",
                       "tol": 1e-3, "x0": rng.random() < 0.5, "prec": False})
     for i, sp in enumerate(specs):
@@ -737,7 +764,7 @@ def remake(spec):
     """Re-run the real call described by a trace's cfg (used by --replay and selftest)."""
     fam = spec["fam"]
     if fam == "ls":
-        return ev_ls_group(spec["rows"], spec["dtype"], spec.get("driver"))[0]
+        return ev_ls_group(spec["rows"], spec["dtype"], spec.get("driver"), spec.get("aexp", 0), spec.get("bexp", 0))[0]
     if fam == "merge":
         return ev_merge_row(spec)[0]
     return EVENT_FN[fam](spec)
@@ -746,6 +773,8 @@ def remake(spec):
 def key_of(tr, clause):
     c, e = tr["cfg"], tr["ev"][0]
     fam = c["fam"]
+    if fam == "cg" and (c.get("aexp") or c.get("bexp")):
+        return "cg/%s/%s/%s_scaled" % (clause, c["layout"], c["mode"])
     if fam == "chol":
         return "cholesky/%s/%s" % (clause, tr.get("class", "?"))
     if fam == "ls":
